@@ -176,14 +176,17 @@ drv_sweep(int argc, char **argv)
         hx_rng g;
         hx_seed(&g, seed);
         for (int k = 0; k < nk; k++) {
-                for (int it = 0; it < n + dense; it++) {
+                for (int it = 0; it < n + 2 * dense; it++) {
                         hx_spec sp;
-                        /* the first `dense` iterations walk message length 0..dense-1 */
-                        hx_force_len = it < dense ? it : -1;
+                        /* the first 2*dense iterations walk message length 0..dense-1, each with the
+                         * objects end-flush and start-flush against the guard page */
+                        hx_force_len = it < 2 * dense ? it / 2 : -1;
                         if (!hx_spec_from_kind(klist[k], &g, &sp)) {
                                 fprintf(stderr, "unknown kind %s\n", klist[k]);
                                 return 2;
                         }
+                        if (it < 2 * dense)
+                                sp.placement = (it & 1) ? GA_START : GA_END;
                         exec_spec(klist[k], &sp);
                 }
         }
